@@ -5,7 +5,7 @@ import ast
 from typing import Any, Dict, List, Optional, Set, Tuple
 
 from ..core import AnalysisError, Report
-from ..excflow import Site, collect_sites, dominating_guards, handler_converts, lexical_handler, make_hierarchy
+from ..excflow import GuardFacts, Site, collect_sites, dominating_guards, handler_converts, lexical_handler, make_hierarchy
 from ..pyfacts import Repo, calls, dotted, norm, raise_guards, raised_class, walk_no_nested
 from .c06 import VOCAB, classify_guard, reader_rejected, writer_validated
 
@@ -74,7 +74,7 @@ def rule_escape(rep: Report, repo: Repo) -> None:
                 proof = 'HANDLER: struct.error is converted by Reader.__init__'
             elif s.kind == 'subscript':
                 base = norm(s.node.value)         # type: ignore[attr-defined]
-                guards = dominating_guards(s.node)
+                guards = GuardFacts(dominating_guards(s.node))
                 if isinstance(s.node.value, ast.Dict):                   # type: ignore[attr-defined]
                     keys = {k.value for k in s.node.value.keys if isinstance(k, ast.Constant)}   # type: ignore[attr-defined]
                     sup = set(repo.const('flipjump/fjm/fjm_consts.py', 'SUPPORTED_MEMORY_WIDTHS'))
@@ -85,7 +85,7 @@ def rule_escape(rep: Report, repo: Repo) -> None:
                     if ('data_start + data_length > len(data)', False) in guards:
                         proof = 'GUARD: pool-range rejection dominates; index < data_start + data_length; fields are unsigned'
                 elif base == 'self.memory':
-                    if ('word_address not in self.memory', False) in guards or any(t == 'word_address not in self.memory' for t, p in guards):
+                    if guards.get('word_address not in self.memory') is not None:
                         proof = 'MEMBER: guarded by the membership test on the same dictionary'
                     elif q == 'Reader._get_memory_word':
                         proof = None
@@ -146,7 +146,7 @@ def rule_bounded(rep: Report, repo: Repo) -> None:
     for n in ast.walk(im):
         if isinstance(n, ast.For) and 'range(' in norm(n.iter) and norm(n.iter) != 'segments':
             it = norm(n.iter)
-            guards = dict(dominating_guards(n))
+            guards = GuardFacts(dominating_guards(n))
             if it in ('range(0, data_length, 2)', 'range(data_length)'):
                 ok = guards.get('data_start + data_length > len(data)') is False
                 why = 'after the pool-range rejection: data_length <= len(pool) <= file size'
